@@ -134,6 +134,37 @@ def run(ctx):
             sg = to_sg_format(b, d)
             events.append({"op": "CleanUp", "SG": sg_json(sg), "Bad": [list(p) for k in Bd for p in Bd[k]], "basis": basis})
         nruns += 1
+    # clean-up phase on arbitrary finite sets (not only pattern classes): every returned basis must occur in every
+    # bad permutation it was tested on (all bad permutations up to bm)
+    small4 = [p for k in range(5) for p in util.perms_of(k)]
+    ncu = 0
+    for _ in range(20000 if quick else 100000):
+        dens = rnd.choice([0.25, 0.4, 0.55, 0.7])
+        A = [p for p in small4 if rnd.random() < dens]
+        if rnd.random() < 0.4:
+            A = [p for p in A if len(p) != 4] + [p for p in small4 if len(p) == 4 and rnd.random() < 0.35]
+        ncase = rnd.randint(2, 4)
+        mcase = rnd.randint(2, ncase)
+        if rnd.random() < 0.6:            # the short permutations are good: patterns are learned on several lengths
+            A = sorted(set(A) | {(), (0,)})
+        A = [p for p in A if len(p) <= ncase]
+        Ad = {k: [Perm(p) for p in A if len(p) == k] for k in range(ncase + 1)}
+        Aset = set(A)
+        Bd = {k: [Perm(p) for p in util.perms_of(k) if p not in Aset] for k in range(ncase + 1)}
+        st, SG = util.call(quiet, bisc, Ad, mcase, ncase)
+        if st == "raise" or not SG or all(not v for v in SG.values()):
+            continue
+        st, res = util.call(quiet, run_clean_up, SG, Bd, ncase, limit_monitors=rnd.choice([1, 2, 3, 4, 5, 6]))
+        if st == "raise":
+            ctx.violation({"kind": "cleanup", "A": [list(a) for a in A]}, "NoException", "bases", res)
+            continue
+        bases, d = res
+        for b in bases[:8]:
+            ncu += 1
+            low = min(SG.keys())        # the clean-up tests bad permutations from the shortest learned length on
+            events.append({"op": "CleanUp", "SG": sg_json(to_sg_format(b, d)), "Bad": [list(p) for k in Bd if k >= low for p in Bd[k]],
+                           "A": [list(a) for a in A]})
+    ctx.note("cleanup_bases_on_random_sets", ncu)
     for _ in range(40 if quick else 400):
         q = util.rand_perm(rnd, rnd.randint(1, 7))
         k = rnd.randint(0, min(4, len(q)))
@@ -165,7 +196,7 @@ def run(ctx):
     chunks = [events[i::nch] for i in range(nch)]
     import concurrent.futures
     with concurrent.futures.ThreadPoolExecutor(max_workers=nch) as ex:
-        vs = list(ex.map(lambda ch: util.validate_trace(ctx, "Trace_C17", [{k: v for k, v in e.items() if k not in ("form", "basis", "name")} for e in ch],
+        vs = list(ex.map(lambda ch: util.validate_trace(ctx, "Trace_C17", [{k: v for k, v in e.items() if k not in ("form", "basis", "name") and not (k == "A" and e["op"] == "CleanUp")} for e in ch],
                                                         ntraces=len(ch), timeout=3000), chunks))
     ops = {}
     for ch, v in zip(chunks, vs):
